@@ -103,10 +103,11 @@ def from_recipe(r):
     if r[0] == 'nl': return build(NL.from_json(r[1]), r[2])
     if r[0] == 'bench': return bench.load(r[1])
     if r[0] == 'benchtext': return bench.parse(r[1])
-    if r[0] == 'verilog':
+    if r[0] in ('verilog', 'verilog-lean'):
         lib = getattr(techlib, r[2])
         c = verilog.load(r[1], tlib=lib, branchforks=bool(r[3]))
         c.resolve_tlib_cells(lib)
+        if r[0] == 'verilog-lean': c.eliminate_1to1_forks()          # forks remain only on nets with fan-out
         return c
     raise KeyError(r[0])
 
@@ -166,6 +167,13 @@ def g2_shapes():
                 [('f0', 'DFF', ['q0', 'q0n'], ['d0']), ('f1', 'DFF', ['q1', None], ['d1']), ('x0', 'XOR2', ['d0'], ['q0', 'en']),
                  ('a1', 'AND2', ['c0'], ['q0', 'en']), ('x1', 'XOR2', ['d1'], ['q1', 'c0']), ('o1', 'NOR2', ['o'], ['q0n', 'q1'])]))
     S.append(NL('dff_no_pins', [('a', 'in'), ('o', 'out'), ('p', 'out')], [('f', 'DFF', ['q', 'qn'], []), ('g', 'dff', ['r', None], [None, 'a']), ('h', 'XOR2', ['o'], ['q', 'a']), ('k', 'NOR2', ['p'], ['qn', 'r'])]))
+    S.append(NL('driven_port_2readers', [('x', 'in'), ('y', 'in'), ('a', 'out'), ('p', 'out'), ('q', 'out')],
+                [('g0', 'NAND2', ['a'], ['x', 'y']), ('g1', 'INV1', ['p'], ['a']), ('g2', 'AND2', ['q'], ['a', 'x'])]))
+    S.append(NL('all4_final', [('a', 'in'), ('b', 'in'), ('c', 'in'), ('d', 'in'), ('o1', 'out'), ('o2', 'out')],
+                [('k1', 'tieh', ['one'], []), ('f0', 'DFF', ['q0', 'qn0'], ['n0']), ('f1', 'DFF', ['q1', 'qn1'], ['n1']), ('f2', 'DFF', ['q2', None], ['n2']),
+                 ('m0', 'OR2', ['t0'], ['a', None]), ('m1', 'XOR2', ['t1'], ['b', 'q0']), ('m2', 'NAND2', ['t2'], ['c', 'qn1']),
+                 ('l0', 'OR4', ['n0'], ['t0', 't1', 'q2', 'd']), ('l1', 'AO22', ['n1'], ['t1', 't2', 'one', 'qn0']), ('l2', 'XOR4', ['n2'], ['t0', 't2', 'q1', 'a']),
+                 ('l3', 'OAI22', ['o1'], ['t0', 't1', 't2', 'q0']), ('l4', 'AND4', ['o2'], ['t1', 'q1', 'one', 'd'])]))
     S.append(NL('latch', [('d', 'in'), ('g', 'in'), ('q', 'out')], [('l', 'LATCH', ['q'], ['d', 'g'])]))
     S.append(NL('latch_mix', [('d', 'in'), ('g', 'in'), ('o', 'out')],
                 [('l', 'latch', ['ql'], ['x', 'g']), ('f', 'DFF', ['qf', 'qfn'], ['ql']), ('x1', 'XNOR2', ['x'], ['d', 'qfn']), ('o1', 'OAI21', ['o'], ['ql', 'qf', 'd'])]))
@@ -256,4 +264,6 @@ def has_driven_port_fanout(nl):
 
 G4 = [('bench', '/repo/tests/b01.bench'), ('verilog', '/repo/tests/b01.v', 'SAED90', 0), ('verilog', '/repo/tests/gates.v', 'SAED90', 0),
       ('verilog', '/repo/tests/gates.v', 'SAED90', 1), ('verilog', '/repo/tests/rng_haltonBase2.synth_yosys.v', 'SAED90', 0)]
+G4_LEAN = [('verilog-lean', '/repo/tests/b01.v', 'SAED90', 0), ('verilog-lean', '/repo/tests/rng_haltonBase2.synth_yosys.v', 'SAED90', 0)]
 G4_BIG = [('verilog', '/repo/tests/b15_2ig.v.gz', 'SAED32', 0)]
+G4_BIG_LEAN = [('verilog-lean', '/repo/tests/b15_2ig.v.gz', 'SAED32', 0)]
